@@ -156,6 +156,20 @@ func judgeUntouched(before, after snap.Tree) []string {
 func judgeExact(before, expected, after snap.Tree, owned map[string]bool) []string {
 	var out []string
 	for _, c := range snap.Diff(expected, after, false) {
+		if owned[c.Path] {
+			// what the generator does to the mode of its own files, and whether it writes through a symlink
+			// the user put under one of its own names or replaces it, is not part of the property
+			if c.Kind == "chmod" {
+				continue
+			}
+			b, was := before[c.Path]
+			if was && b.Type == "symlink" && c.Kind == "retyped" && c.After != nil && c.After.Type == "file" {
+				continue
+			}
+			if was && c.Kind == "modified" && c.After != nil && c.After.Hash == b.Hash && c.After.Type == b.Type {
+				continue // the link's target left as it was (the link itself was replaced)
+			}
+		}
 		switch c.Kind {
 		case "created":
 			out = append(out, "unexpected "+c.Path)
